@@ -60,7 +60,7 @@ class Executor(MatchMixin, ExprMixin):
         self.spec_mode = False
         self.cur: Optional[Contract] = None
         self.timeout = solver_timeout_ms
-        self.globals = {"TokenizerState": PyConst("TokenizerState"), "Token": PyConst("Token"), "sys": PyConst("sys"), "ast": PyConst("ast"), "Load": PyConst("Load"),
+        self.globals = {"TokenizerState": PyConst("TokenizerState"), "Token": PyConst("Token"), "Target": PyConst("Target"), "sys": PyConst("sys"), "ast": PyConst("ast"), "Load": PyConst("Load"),
                         "Store": PyConst("Store"), "Del": PyConst("Del"), "TokenInfo": PyConst("TokenInfo"),
                         "tabsize": z3.IntVal(8)}
         for c in EXC_CLASSES:
@@ -1751,7 +1751,12 @@ class Executor(MatchMixin, ExprMixin):
             same = env.get(pn) is self._get_path(env, path)
             self.vc(st, z3.BoolVal(bool(same)), "pre", f"argument `{pn}` of {short} is the object `{path}`", node.lineno)
         for r in c.requires:
-            g = self.spec_eval(r, ss)
+            try:
+                g = self.spec_eval(r, ss)
+            except (AttributeError, KeyError, TypeError) as u:
+                # e.g. a clause about the positions of an argument that is None on this path
+                self.vc(st, z3.BoolVal(False), "pre", f"precondition `{r}` of {short} cannot be evaluated for these arguments: {type(u).__name__}", node.lineno)
+                continue
             self.vc(st, Tr(g), "pre", f"precondition `{r}` of {short}", node.lineno)
             st.assume(Tr(g))
         for r in c.requires_assumed:
